@@ -7,7 +7,7 @@ from .. import boot  # noqa: F401
 from .. import world as W
 from ..corpus import Session
 from ..drive import Drive
-from ..runner import sig_of
+from ..runner import sig_of, rearm
 import aioftp
 import aioftp.server
 
@@ -243,6 +243,7 @@ async def scenario(net, hyg, plan):
 
 
 def run_plan(plan):
+    rearm()
     async def main(net, hyg):
         return await scenario(net, hyg, plan)
     res, info = W.run(main, seed=plan.get("seed", 0), net_kwargs=dict(latency=plan.get("latency", 0.001), jitter=plan.get("jitter", 0.0)))
